@@ -41,3 +41,53 @@ Theorem C16_expand_total : forall w,
    exists l, braces_rec (S (word_size (snd (split_braces w)))) (snd (split_braces w)) = Ok l /\ (limit < length l)%nat).
 Proof. exact expand_split_total. Qed.
 Print Assumptions C16_expand_total.
+
+(* 5. expansion = bash (Spec). Full statement (NOT provable for the code as it is: refuted below):
+        forall w, to_sres (expand_word w) = spec w
+      where to_sres maps the limit error to "more than 16384 words".
+   Proved on stated scopes; the words outside KnownClass are what the search samples against bash. *)
+
+(* refuted in general: KF-C16-1 (bash looks past a '}' that follows no ',' or ".."), e.g. "{a}b,c}" *)
+Theorem C16_expand_matches_spec_refuted : exists w, to_sres (expand_word w) <> spec w.
+Proof. exact expand_matches_spec_refuted. Qed.
+Print Assumptions C16_expand_matches_spec_refuted.
+
+(* scope A: words without '{' *)
+Theorem C16_expand_matches_spec_nobrace_partial : forall w, contains_byte LB w = false ->
+  expand_word w = Ok [w] /\ spec w = Words [w].
+Proof. exact no_brace_word. Qed.
+Print Assumptions C16_expand_matches_spec_nobrace_partial.
+
+(* scope B: EVERY word of length 1..5 over { } , . - \ 0 1 9 a z outside the class KF-C16-1
+   (finite domain, decided in the kernel). Missing for the full statement: unbounded length. *)
+Theorem C16_expand_matches_spec_len5_partial : forall w,
+  (1 <= length w <= 5)%nat -> (forall c, In c w -> In c A11) ->
+  skipped_close w = false -> to_sres (expand_word w) = spec w.
+Proof. exact expand_matches_spec_len5. Qed.
+Print Assumptions C16_expand_matches_spec_len5_partial.
+
+(* scope C: scope B plus all words of length 6 over { } , . 1 a, length 7 over { } . 1 a and over { } , a *)
+Theorem C16_expand_matches_spec_short_partial : forall w,
+  In w short_words -> skipped_close w = false -> to_sres (expand_word w) = spec w.
+Proof. exact expand_matches_spec_short. Qed.
+Print Assumptions C16_expand_matches_spec_short_partial.
+
+(* non-vacuity *)
+Example C16_ex_split : split_braces [97;123;98;44;99;125;100]    (* a{b,c}d *)
+  = (true, [PLit [97]; PBrace false [[PLit [98]]; [PLit [99]]]; PLit [100]]).
+Proof. exact ex_split. Qed.
+Example C16_ex_unfound : split_braces [97;123;98] = (false, [PLit [97;123;98]]).   (* a{b *)
+Proof. exact ex_unfound. Qed.
+Example C16_ex_expand : expand_word [97;123;98;44;99;125;100] = Ok [[97;98;100]; [97;99;100]]
+  /\ spec [97;123;98;44;99;125;100] = Words [[97;98;100]; [97;99;100]].
+Proof. exact ex_expand. Qed.
+Example C16_ex_limit :    (* {1..16385} errors, {1..16384} does not *)
+  expand_word [123;49;46;46;49;54;51;56;53;125] = Err E_LIMIT /\ spec [123;49;46;46;49;54;51;56;53;125] = Many
+  /\ exists l, expand_word [123;49;46;46;49;54;51;56;52;125] = Ok l /\ length l = limit.
+Proof. exact ex_limit. Qed.
+Example C16_ex_scope_nonempty :   (* a length-5 word in scope B with a real expansion: {a,z} *)
+  skipped_close [123;97;44;122;125] = false /\ to_sres (expand_word [123;97;44;122;125]) = Words [[97]; [122]].
+Proof. exact ex_scope. Qed.
+Example C16_ex_overflow_edge :   (* {9223372036854775806..9223372036854775807} : two words, no wrap-around *)
+  exists a b, expand_word [123;57;50;50;51;51;55;50;48;51;54;56;53;52;55;55;53;56;48;54;46;46;57;50;50;51;51;55;50;48;51;54;56;53;52;55;55;53;56;48;55;125] = Ok [a; b].
+Proof. exact ex_overflow. Qed.
